@@ -118,6 +118,8 @@ impl RegistryPackageResolver {
         {
             let client = self.client.clone();
             tasks.push(tokio::spawn(async move {
+                #[cfg(feature = "verif")]
+                verif::before_download(index).await;
                 Ok((
                     index,
                     if let Some(version) = version {
@@ -159,6 +161,9 @@ impl RegistryPackageResolver {
 
             finished += 1;
 
+            #[cfg(feature = "verif")]
+            verif::completed(index);
+
             let (key, _) = keys.get_index(index).unwrap();
 
             if let Some(bar) = self.bar.as_ref() {
@@ -187,5 +192,39 @@ impl RegistryPackageResolver {
             path: path.to_path_buf(),
             source: e.into(),
         })
+    }
+}
+
+/// Delay/observe hooks for external runtime monitors (feature `verif`).
+///
+/// A monitor may set a per-task delay table before calling `resolve` and read
+/// back the order in which download tasks completed afterwards.
+#[cfg(feature = "verif")]
+pub mod verif {
+    use std::sync::Mutex;
+    use std::time::Duration;
+
+    static DELAYS_MS: Mutex<Vec<u64>> = Mutex::new(Vec::new());
+    static COMPLETIONS: Mutex<Vec<usize>> = Mutex::new(Vec::new());
+
+    /// Sets the delay (in milliseconds) applied to the download task at each position.
+    pub fn set_delays(delays_ms: Vec<u64>) {
+        *DELAYS_MS.lock().unwrap() = delays_ms;
+    }
+
+    /// Takes the list of task positions in the order their results were received.
+    pub fn take_completions() -> Vec<usize> {
+        std::mem::take(&mut *COMPLETIONS.lock().unwrap())
+    }
+
+    pub(super) async fn before_download(index: usize) {
+        let delay = DELAYS_MS.lock().unwrap().get(index).copied().unwrap_or(0);
+        if delay > 0 {
+            tokio::time::sleep(Duration::from_millis(delay)).await;
+        }
+    }
+
+    pub(super) fn completed(index: usize) {
+        COMPLETIONS.lock().unwrap().push(index);
     }
 }
